@@ -160,8 +160,105 @@ def render_intro(case):
     return {"lib.py": lib, "use.py": "import lib\n" + use_calls, "main.py": "import lib\nimport use\n"}
 
 
+@st.composite
+def hier_cases(draw):
+    """in_hierarchy=True: a method (plain, class or static) that a subclass overrides and that the base class calls
+    polymorphically; reordering its parameters must reach every override, or dynamic dispatch binds the arguments the
+    other way round"""
+    deco = draw(st.sampled_from(["", "@classmethod", "@staticmethod"]))
+    levels = draw(st.integers(2, 3))
+    override_all = draw(st.booleans())
+    query = draw(st.integers(0, levels - 1))
+    other_module = draw(st.booleans())
+    return {"hier": True, "deco": deco, "levels": levels, "override_all": override_all, "query": query, "other_module": other_module,
+            "changer": draw(st.sampled_from(["reorder", "remove_first", "add_last"]))}
+
+
+def render_hier(case):
+    deco = case["deco"]
+    first = {"": "self", "@classmethod": "cls", "@staticmethod": ""}[deco]
+    recv = "self"
+    names = ["Base", "Mid", "Leaf"][: case["levels"]]
+    lib, sub = "", ""
+    for k, cn in enumerate(names):
+        text = "class %s%s:\n" % (cn, "(%s)" % names[k - 1] if k else "")
+        has = k == 0 or case["override_all"] or k == case["levels"] - 1
+        if has:
+            text += ("    %s\n" % deco if deco else "") + "    def build(%s):\n        return ('%s', a, b)\n" % (", ".join([x for x in [first, "a", "b"] if x]), cn)
+        if k == 0:
+            text += "    def make(self):\n        return %s.build(1, 2)\n" % recv
+        if not has and k:
+            text += "    pass\n" if "def " not in text else ""
+        if case["other_module"] and k:
+            sub += text
+        else:
+            lib += text
+    calls = "print(%s)\n" % ", ".join("%s().make(), %s().build(3, b=4)" % (cn, cn) for cn in names)
+    files = {"lib.py": lib + ("" if case["other_module"] else calls), "main.py": "import lib\n"}
+    if case["other_module"]:
+        files["sub.py"] = "from lib import Base\n" + sub + calls
+        files["main.py"] += "import sub\n"
+    return files
+
+
+def _evaluate_hier(case, env):
+    from rope.base import exceptions as rex
+    from rope.base.project import Project
+    from rope.refactor import change_signature as cs
+
+    from props.c05_move import _apply, _show as show5
+
+    out = core.Outcome()
+    files = render_hier(case)
+    base = runner.run(files, "main.py")
+    if base[1]:
+        raise core.HarnessError("generated project raises %s\n%s" % (base[1], runner.LAST_TB))
+    out.labels["kind:hierarchy" + (":" + case["deco"] if case["deco"] else ":method")] += 1
+    root = core.fresh_dir("c06h")
+    fsmodel.write_tree(root, files)
+    project = Project(root, ropefolder=None)
+    try:
+        # the query-th definition of build
+        defs = [(p_, m_.start() + 4) for p_ in sorted(files) for m_ in __import__("re").finditer(r"def build\(", files[p_])]
+        path, off = defs[case["query"] % len(defs)]
+        base_idx = 0 if case["deco"] == "@staticmethod" else 1
+        if case["changer"] == "reorder":
+            changers = [cs.ArgumentReorderer([0, 2, 1] if base_idx else [1, 0])]
+        elif case["changer"] == "remove_first":
+            changers = None  # replaced below: removing a would change the printed tuples, so only reorder/add are behavioural no-ops
+        else:
+            changers = [cs.ArgumentAdder(base_idx + 2, "extra", "0", "0")]
+        if changers is None:
+            changers = [cs.ArgumentNormalizer()]
+        out.evals += 1
+        try:
+            changes = cs.ChangeSignature(project, project.get_file(path), off).get_changes(changers, in_hierarchy=True)
+        except rex.RopeError:
+            out.refused += 1
+            return out
+        except Exception as e:
+            out.notes["crashed:%s (see C09)" % type(e).__name__] += 1
+            return out
+        new_files, moves = _apply(files, changes)
+        where = "%s on %s:%d in_hierarchy=True, %s\n%s" % (case["changer"], path, off, case["deco"] or "plain method", show5(files, new_files, moves))
+        bad = runner.compiles(new_files)
+        if bad:
+            out.violation("C06:hierarchy:does_not_compile", "%s\n%s" % (bad[0], where))
+            return out
+        got = runner.run(new_files, "main.py")
+        if got != base:
+            out.violation("C06:hierarchy:behaviour%s" % (":" + got[1] if got[1] else ""), "output %r/%s -> %r/%s\n%s" % (base[0][-120:], base[1], got[0][-120:], got[1], where))
+            return out
+        if new_files != files:
+            out.nontrivial.add(("h", case["deco"], case["levels"]))
+    finally:
+        project.close()
+        core.rmtree(root)
+    return out
+
+
 def strategy(tier):
-    return st.one_of(cases(), cases(), cases(), cases(), cases(), intro_cases())
+    return st.one_of(cases(), cases(), cases(), cases(), cases(), intro_cases(), hier_cases())
 
 
 def render(case):
@@ -224,6 +321,8 @@ def render(case):
 
 
 def describe(case):
+    if case.get("hier"):
+        return dict(render_hier(case), case=case)
     if case.get("intro"):
         return {"lib.py": render_intro(case)["lib.py"], "refactoring": "IntroduceParameter"}
     f = render(case)
@@ -336,6 +435,8 @@ def _evaluate_intro(case, env):
 def evaluate(case, env):
     if case.get("intro"):
         return _evaluate_intro(case, env)
+    if case.get("hier"):
+        return _evaluate_hier(case, env)
     from rope.base import exceptions as rex
     from rope.base.project import Project
     from rope.refactor import change_signature as cs
